@@ -850,7 +850,7 @@ func init() {
 		Scenarios[strings.ToLower(prop)+".many-components"] = func() (choice.Scenario, func() any) {
 			return func(c *choice.Ctx) {
 				kind := c.Choose("profile", 3)
-				n := []int{24, 22, 23, 25, 26, 255, 256, 257}[c.Choose("ncomps", 8)]
+				n := []int{24, 22, 23, 25, 26, 255, 256, 257, 33, 65, 129, 1025, 4097}[c.Choose("ncomps", 13)]
 				how := c.Choose("build", 3)
 				a := genValid(&choice.Ctx{}, kind, false)
 				a.CompsNil, a.NoMeas, a.Comps = false, nil, nil
